@@ -516,3 +516,16 @@ func key2pkg(key string) string {
 	}
 	return key
 }
+
+// recordedAnchors reads the anchor record of the reviewed tree.
+func (w *World) recordedAnchors() map[string]*anchorPkg {
+	data, err := os.ReadFile(filepath.Join(w.VerifD, "checker", "anchors.json"))
+	if err != nil {
+		return nil
+	}
+	var rec map[string]*anchorPkg
+	if json.Unmarshal(data, &rec) != nil {
+		return nil
+	}
+	return rec
+}
